@@ -16,6 +16,8 @@ from .. import circ_common as cc
 from ..bridge import close, ring, vec
 from ..tlc import TLCError
 
+# violation keys of behaviour modelled beyond the statement of the property (reported, never an alarm)
+BEYOND = ("bits:",)
 INV = ["ConventionsCompose", "ExactEqualsEigenvalueAverage", "Normalised", "SupportIsNonzeroProb", "EmitZ"]
 
 
@@ -109,6 +111,62 @@ def check_case(ctx, c):
     return out
 
 
+BITS_INV = ["Dec2BinIsMSB", "Bin2DecIsMSB", "RoundTrips", "IsingIsSigned", "OrderedIsAscending", "FlipIsBitReversal", "EmitInit"]
+
+
+def check_bits_case(ctx, c):
+    """Bits.tla -> the utility layer's bit helpers, one (length, number) per case"""
+    from orquestra.quantum.distributions.target_thermal_states import convert_integer_to_ising_bitstring, convert_ising_bitstring_to_integer
+    from orquestra.quantum.measurements.measurements import convert_bitstring_to_int
+    from orquestra.quantum.utils import bin2dec, bitstring_to_tuple, convert_bitstrings_to_tuples, convert_tuples_to_bitstrings, dec2bin, get_ordered_list_of_bitstrings, tuple_to_bitstring
+    from orquestra.quantum.wavefunction import flip_amplitudes
+
+    out = []
+    L, x, msb = c["len"], c["num"], list(c["msb"])
+    desc = "number %d on %d bits" % (x, L)
+    got = [int(b) for b in dec2bin(x, L)]
+    if got != msb:
+        out.append(("bits:dec2bin", "%s: dec2bin gives %s, specification (most significant first) %s" % (desc, got, msb)))
+    if bin2dec(list(msb)) != x:
+        out.append(("bits:bin2dec", "%s: bin2dec(%s) = %s" % (desc, msb, bin2dec(list(msb)))))
+    isg = [int(b) for b in convert_integer_to_ising_bitstring(x, L)]
+    if isg != list(c["ising"]):
+        out.append(("bits:ising", "%s: Ising string %s, specification %s" % (desc, isg, c["ising"])))
+    if convert_ising_bitstring_to_integer(list(c["ising"])) != x:
+        out.append(("bits:ising-back", "%s: Ising string %s read back as %s" % (desc, c["ising"], convert_ising_bitstring_to_integer(list(c["ising"])))))
+    if convert_bitstring_to_int(tuple(msb)) != c["le"]:
+        out.append(("bits:little-endian", "%s: convert_bitstring_to_int(%s) = %s, specification (first element least significant) %s" % (desc, msb, convert_bitstring_to_int(tuple(msb)), c["le"])))
+    text = "".join(map(str, msb))
+    tup = bitstring_to_tuple(text)
+    if list(tup) != msb[::-1] or convert_bitstrings_to_tuples([text, text[::-1]]) != [tuple(msb[::-1]), tuple(msb)]:
+        out.append(("bits:bitstring_to_tuple", "%s: bitstring_to_tuple(%r) = %s, specification: the reversal" % (desc, text, tup)))
+    if tuple_to_bitstring(tuple(msb)) != text or convert_tuples_to_bitstrings([tuple(msb)]) != [text]:
+        out.append(("bits:tuple_to_bitstring", "%s: tuple_to_bitstring(%s) = %r, specification: position by position" % (desc, msb, tuple_to_bitstring(tuple(msb)))))
+    if x == 0:
+        want = ["".join(map(str, b)) for b in c["ordered"]]
+        got = get_ordered_list_of_bitstrings(L)
+        if list(got) != want:
+            out.append(("bits:ordered", "ordered bitstrings on %d bits: %s, specification %s" % (L, got, want)))
+        amps = [complex(i, -i) for i in range(2**L)]
+        fl = list(flip_amplitudes(amps))
+        wantf = [amps[j] for j in c["flip"]]
+        if fl != wantf:
+            out.append(("bits:flip", "flip_amplitudes on %d bits permutes by %s, specification (bit reversal) %s" % (L, [int(v.real) for v in fl], list(c["flip"]))))
+    return out
+
+
+def check_bits(ctx):
+    ml = 6 if ctx.tier == "quick" else 9
+    ctx.bounds["bit helpers"] = "every number on every length 1..%d" % ml
+    res = ctx.tlc("Bits", constants=dict(MaxLen=ml, Emitting=True), invariants=BITS_INV, action_constraints=["Emit"], workers=2, coverage=False, timeout=1200)
+    if len(res.emitted) != 2 ** (ml + 1) - 2:
+        raise TLCError("Bits exported %d states, expected %d" % (len(res.emitted), 2 ** (ml + 1) - 2))
+    for c, fails in zip(res.emitted, ctx.pmap(check_bits_case, res.emitted)):
+        ctx.count({"k": "bits", "len": c["len"], "num": c["num"]}, kind="bit helpers (beyond the property)")
+        for key, msg in fails:
+            ctx.violation(key, msg, {"k": "bits", "c": c})
+
+
 def run(ctx):
     quick = ctx.tier == "quick"
     ctx.bounds = {"basis": "all X-subset circuits on 1..4 qubits", "super": "all circuits of <= %d gates over {X,H,RY(pi/2),S,CNOT,c-RY(pi/2)} on 1..3 qubits" % (2 if quick else 3), "Z operators": "every subset of the register"}
@@ -139,10 +197,15 @@ def run(ctx):
         ctx.count({"k": "program", "circuit": cc.describe(to_steps(c["prog"]), c["n"]), "support": sum(1 for p in c["probs"] if p[0] or p[1])}, kind=c["mode"])
         for key, msg in fails:
             ctx.violation(key, msg, c)
+    check_bits(ctx)
     ctx.assumptions.append("sampled outcomes are random (seeded): only length, membership in the exact support, count strings and statistics recomputed from the returned tuples are compared")
 
 
 def replay(ctx, case):
+    if case.get("k") == "bits":
+        for key, msg in check_bits_case(ctx, case["c"]):
+            ctx.violation(key, msg, case)
+        return
     ctx.count({"k": "program", "circuit": cc.describe(to_steps(case["prog"]), case["n"])})
     for key, msg in check_case(ctx, case):
         ctx.violation(key, msg, case)
